@@ -30,6 +30,7 @@ LEVEL = "model_checking"
 EXCLUDE = ("_parameter_history", "_tee", "_optimization_result", "_termination_reason")
 N_VECTORS = 4
 RAISE_EVENT = 4
+RAISE_LATE = 5  # the model raises at its third matrix of the evaluation (an earlier dataset group has been estimated already)
 
 
 class InjectedFault(RuntimeError):
@@ -51,18 +52,20 @@ def make_optimizer(spec, snapshots=None):
 def vector(spec, k):
     if k == RAISE_EVENT:
         return S.x_vector(spec, 1) * 1.003
+    if k == RAISE_LATE:
+        return S.x_vector(spec, 2) * 1.003
     return S.x_vector(spec, k)
 
 
 def evaluate(spec, opt, k):
     """returns penalty bytes or the exception name"""
-    if k == RAISE_EVENT:
+    if k in (RAISE_EVENT, RAISE_LATE):
         calls = [0]
 
         def hook(mc, dm):
             # raise in the middle of the evaluation: the first matrix has been computed already
             calls[0] += 1
-            if calls[0] == 2:
+            if calls[0] == (2 if k == RAISE_EVENT else 3):
                 raise InjectedFault("injected")
 
         S._FAULT_HOOK[0] = hook
@@ -126,6 +129,8 @@ def case_histories(case):
     key = core.digest(case["opts"])
     _FRESH.clear()
     events = list(range(N_VECTORS)) + [RAISE_EVENT]
+    if case["opts"].get("nds") == 3 and str(case["opts"].get("groups", "one")).startswith("two"):
+        events.append(RAISE_LATE)
     r = bfs(lambda h, info: events, lambda h: replay(spec, h, key), case["depth"])
     # nondeterminism guard: replaying one history twice gives the same digest
     h = max(r["state_histories"].values(), key=len)
@@ -480,6 +485,7 @@ def run(run: core.Run):
     axes = [a for a in F.AXES if a != "labels"]
     t = 1 if quick else 2
     opts = F.t_way(t, axes) + [o for o in F.t_way(2, ["link", "penalty", "relation", "dscale", "full", "weights"]) if len(o) == 2]
+    opts += [{"groups": g, "penalty": "yes", "nds": 3, "link": False} for g in ("two", "two_unlinked")]
     opts = list({core.digest(o): o for o in opts}.values())
     run.bounds = {"history_depth": depth, "vectors": N_VECTORS, "raising_vector": 1, "schemes_t_way": t}
     run.map("histories", [{"opts": o, "depth": depth, "seed": run.seed} for o in opts])
